@@ -387,8 +387,9 @@ impl ShiftedTruncatedDiscreteLaplace {
         )?;
         let shift = truncated_discrete_laplace.get_shift();
         assert!(bit_size <= 32);
+        // mask of the low `bit_size` bits: reduces modulo 2^bit_size (also for bit_size = 32)
         let modulus = if bit_size < 32 {
-            2_u32.pow(bit_size)
+            2_u32.pow(bit_size) - 1
         } else {
             u32::MAX
         };
@@ -414,7 +415,7 @@ impl ShiftedTruncatedDiscreteLaplace {
         OV: BooleanArray + U128Conversions,
     {
         let sample = self.sample(rng);
-        let symmetric_sample = sample.wrapping_sub(self.shift) % self.modulus;
+        let symmetric_sample = sample.wrapping_sub(self.shift) & self.modulus;
         match direction_to_excluded_helper {
             Direction::Left => {
                 Replicated::new(OV::ZERO, OV::truncate_from(u128::from(symmetric_sample)))
